@@ -409,7 +409,7 @@ def family_blocks(metric, max_cells, block=16384, md=None):
 
 def shards(tier):
     out = []
-    nr, per = (4, 12) if tier == "quick" else (12, 450)
+    nr, per = (4, 12) if tier == "quick" else (10, 130)
     for i in range(nr):
         out.append(("rand#%d" % i, lambda ctx: drive_hypothesis(ctx, body_rand, rand_cases(10 if tier == "thorough" else 8), per, shrink=(tier == "thorough"))))
     blocks = []
@@ -423,8 +423,8 @@ def shards(tier):
         for md in (1.0, 1.5, 2.3, 3.0):
             blocks += family_blocks("EUCLIDEAN", 15, md=md) + family_blocks("MANHATTAN", 15, md=md)
     for i in range(2 if tier == "quick" else 3):
-        out.append(("gc#%d" % i, lambda ctx: drive_hypothesis(ctx, body_rand, gc_cases(), 12 if tier == "quick" else 300, shrink=(tier == "thorough"))))
-    nm, perm = (3, 12) if tier == "quick" else (4, 450)
+        out.append(("gc#%d" % i, lambda ctx: drive_hypothesis(ctx, body_rand, gc_cases(), 12 if tier == "quick" else 100, shrink=(tier == "thorough"))))
+    nm, perm = (3, 12) if tier == "quick" else (4, 130)
     for i in range(nm):
         out.append(("multi#%d" % i, lambda ctx: drive_hypothesis(ctx, body_rand, multi_cases(), perm, shrink=(tier == "thorough"))))
     ns = 6 if tier == "quick" else 16
